@@ -204,20 +204,49 @@ func c05(repo string, out *fg.Out) error {
 	if err != nil {
 		return err
 	}
-	rowKeys := func(recv, name string) ([]string, error) {
+	// routing keys of a WAL row: from the `row := map…{…}` literal and/or `row["k"] = …` assignments;
+	// last = both keys are (re)assigned AFTER the loop that copies the column values into the row
+	rowKeys := func(recv, name string) ([]string, bool, error) {
 		f := aw.FuncDecl(recv, name)
 		if f == nil {
-			return nil, fmt.Errorf("%s not found", name)
+			return nil, false, fmt.Errorf("%s not found", name)
 		}
 		var keys []string
+		add := func(k string) {
+			for _, x := range keys {
+				if x == k {
+					return
+				}
+			}
+			keys = append(keys, k)
+		}
+		var colLoop *ast.RangeStmt
+		after := map[string]bool{}
 		ast.Inspect(f, func(nd ast.Node) bool {
-			if as, ok := nd.(*ast.AssignStmt); ok && len(as.Lhs) == 1 && len(as.Rhs) == 1 {
-				if id, ok := as.Lhs[0].(*ast.Ident); ok && id.Name == "row" {
-					if cl, ok := as.Rhs[0].(*ast.CompositeLit); ok {
-						for _, el := range cl.Elts {
-							if kvp, ok := el.(*ast.KeyValueExpr); ok {
-								if s, ok := strLit(kvp.Key); ok {
-									keys = append(keys, s)
+			switch x := nd.(type) {
+			case *ast.RangeStmt:
+				if id, ok := x.Key.(*ast.Ident); ok && id.Name == "colName" {
+					colLoop = x
+				}
+			case *ast.AssignStmt:
+				if len(x.Lhs) == 1 && len(x.Rhs) == 1 {
+					if id, ok := x.Lhs[0].(*ast.Ident); ok && id.Name == "row" {
+						if cl, ok := x.Rhs[0].(*ast.CompositeLit); ok {
+							for _, el := range cl.Elts {
+								if kvp, ok := el.(*ast.KeyValueExpr); ok {
+									if s, ok := strLit(kvp.Key); ok {
+										add(s)
+									}
+								}
+							}
+						}
+					}
+					if ix, ok := x.Lhs[0].(*ast.IndexExpr); ok {
+						if id, ok := ix.X.(*ast.Ident); ok && id.Name == "row" {
+							if s, ok := strLit(ix.Index); ok {
+								add(s)
+								if colLoop != nil && x.Pos() > colLoop.End() {
+									after[s] = true
 								}
 							}
 						}
@@ -226,18 +255,24 @@ func c05(repo string, out *fg.Out) error {
 			}
 			return true
 		})
-		if len(keys) != 2 {
-			return nil, fmt.Errorf("%s: expected a row literal with two routing keys, got %v", name, keys)
+		if len(keys) != 2 || colLoop == nil {
+			return nil, false, fmt.Errorf("%s: expected two routing keys and a `for colName, … := range` loop, got %v", name, keys)
 		}
-		return keys, nil
+		if keys[0] != "_database" && keys[1] == "_database" {
+			keys[0], keys[1] = keys[1], keys[0]
+		}
+		return keys, after[keys[0]] && after[keys[1]], nil
 	}
-	k1, err := rowKeys("ArrowBuffer", "columnarToWALRecords")
+	k1, last1, err := rowKeys("ArrowBuffer", "columnarToWALRecords")
 	if err != nil {
 		return err
 	}
-	k2, err := rowKeys("", "typedBatchToWALRecords")
+	k2, last2, err := rowKeys("", "typedBatchToWALRecords")
 	if err != nil {
 		return err
+	}
+	if last1 != last2 {
+		return fmt.Errorf("the two WAL row builders disagree on whether the routing keys are written last (%v vs %v)", last1, last2)
 	}
 	if k1[0] != k2[0] || k1[1] != k2[1] {
 		return fmt.Errorf("the two WAL row builders use different routing keys: %v vs %v", k1, k2)
@@ -441,6 +476,23 @@ func c05(repo string, out *fg.Out) error {
 		return fmt.Errorf("RecoverWithOptions: no os.Remove(walFile) in the file loop")
 	}
 
+	// ---- parseColumnarEntry: which dynamic types of "m" are accepted
+	rd, err := fg.ParseFile(repo, "internal/wal/reader.go")
+	if err != nil {
+		return err
+	}
+	pce := rd.FuncDecl("", "parseColumnarEntry")
+	if pce == nil {
+		return fmt.Errorf("parseColumnarEntry not found")
+	}
+	ptxt := rd.Text(pce)
+	acceptsStr := strings.Contains(ptxt, `rawMap["m"].(string)`) || strings.Contains(ptxt, "case string:")
+	acceptsInt := strings.Contains(ptxt, `rawMap["m"].(type)`) && strings.Contains(ptxt, "case int, int8, int16, int32, int64, uint, uint8, uint16, uint32, uint64:") &&
+		strings.Contains(ptxt, `fmt.Sprintf("measurement_%v", v)`)
+	if !acceptsStr {
+		return fmt.Errorf("parseColumnarEntry: string measurement branch not found")
+	}
+
 	// ---- emit
 	L := &out.Lean
 	fmt.Fprintf(L, "namespace Arc.Generated.C05\n")
@@ -454,6 +506,10 @@ func c05(repo string, out *fg.Out) error {
 	fmt.Fprintf(L, "/-- routing keys columnarToWALRecords / typedBatchToWALRecords put into every WAL row -/\n")
 	fmt.Fprintf(L, "def walDbKey : List Nat := %s\n", bytesLean(k1[0]))
 	fmt.Fprintf(L, "def walMeasKey : List Nat := %s\n", bytesLean(k1[1]))
+	fmt.Fprintf(L, "/-- the routing keys are written into the row AFTER the column values (they win over same-named columns) -/\n")
+	fmt.Fprintf(L, "def walKeysLast : Bool := %v\n", last1)
+	fmt.Fprintf(L, "/-- parseColumnarEntry accepts an integer \"m\" as measurement_<n> (like extractMeasurement) -/\n")
+	fmt.Fprintf(L, "def replayAcceptsIntMeas : Bool := %v\n", acceptsInt)
 	fmt.Fprintf(L, "/-- normalizeTimestampColumns: (firstVal < bound, multiplier) rows, first match wins; negative = divide -/\n")
 	var rows []string
 	for _, r := range table {
@@ -472,6 +528,8 @@ func c05(repo string, out *fg.Out) error {
 	out.JSON["dbDefault"] = dbDefault
 	out.JSON["removedKeys"] = removed
 	out.JSON["walKeys"] = k1
+	out.JSON["walKeysLast"] = last1
+	out.JSON["replayAcceptsIntMeas"] = acceptsInt
 	out.JSON["thresholds"] = table
 	out.JSON["elseMult"] = elseMult
 	out.JSON["removeAfterCallbacks"] = removeAfter
